@@ -75,7 +75,7 @@ class TrackBase {
 static const size_t kSizes[12] = {0, 1, 7, 8, 9, 16, 56, 63, 64, 65, 128, 200};
 static size_t al8(size_t x) { return (x + 7) & ~(size_t)7; }
 
-enum Cfg { DEFAULT_BASE = 0, OWN_BASE = 1, USERBUF_EXACT = 2, USERBUF_8 = 3, USERBUF_64 = 4, USERBUF_MISALIGNED = 5, USERBUF_NOBASE = 6, USERBUF_ODD69 = 7, CHUNK_ODD100 = 8 };
+enum Cfg { DEFAULT_BASE = 0, OWN_BASE = 1, USERBUF_EXACT = 2, USERBUF_8 = 3, USERBUF_64 = 4, USERBUF_MISALIGNED = 5, USERBUF_NOBASE = 6, USERBUF_ODD69 = 7, CHUNK_ODD100 = 8, USERBUF_MIS1 = 9, USERBUF_MIS3 = 10 };
 
 template <class Policy, int CFG>
 struct AllocSim {
@@ -117,7 +117,10 @@ struct AllocSim {
       case USERBUF_MISALIGNED: ub_begin = userbuf + 3; ub_len = hdr + 64 + 5; h[0] = new Pool(ub_begin, ub_len, kChunk, &base); break;
       case USERBUF_NOBASE: ub_begin = userbuf; ub_len = hdr + 16; h[0] = new Pool(ub_begin, ub_len, kChunk); break;
       case USERBUF_ODD69: ub_begin = userbuf; ub_len = hdr + 69; h[0] = new Pool(ub_begin, ub_len, kChunk, &base); break;  // capacity not a multiple of 8
-      case CHUNK_ODD100: h[0] = new Pool(100, &base); break;                                                                  // chunk size not a multiple of 8
+      case CHUNK_ODD100: h[0] = new Pool(100, &base); break;
+      // misaligned by 1 / by 3 with a few spare bytes behind the last full 8-byte slot
+      case USERBUF_MIS1: ub_begin = userbuf + 1; ub_len = hdr + 7 + 64 + 4; h[0] = new Pool(ub_begin, ub_len, kChunk, &base); break;
+      case USERBUF_MIS3: ub_begin = userbuf + 3; ub_len = hdr + 5 + 64 + 6; h[0] = new Pool(ub_begin, ub_len, kChunk, &base); break;                                                                  // chunk size not a multiple of 8
     }
     hstate[0] = 1;
   }
@@ -503,6 +506,8 @@ int main(int argc, char** argv) {
   explore<AllocSim<SimpleChunkPolicy, USERBUF_NOBASE>>(R, "A_simple_userbuf_nobase", d_side, extra, states, trans, args, rrc);
   explore<AllocSim<SimpleChunkPolicy, USERBUF_ODD69>>(R, "A_simple_userbuf_odd69", d_side, extra, states, trans, args, rrc);
   explore<AllocSim<AdaptiveChunkPolicy, CHUNK_ODD100>>(R, "A_adaptive_chunk100", d_side, extra, states, trans, args, rrc);
+  explore<AllocSim<SimpleChunkPolicy, USERBUF_MIS1>>(R, "A_simple_userbuf_mis1", d_side, extra, states, trans, args, rrc);
+  explore<AllocSim<SimpleChunkPolicy, USERBUF_MIS3>>(R, "A_simple_userbuf_mis3", d_side, extra, states, trans, args, rrc);
   if (args.replay) return rrc < 0 ? 2 : rrc;
   std::string ej = "\"states\": " + std::to_string(states) + ", \"transitions\": " + std::to_string(trans) + ", \"explorers\": {" + extra + "}";
   return R.finish(ej);
